@@ -39,6 +39,10 @@ func genC15(t *rapid.T) *c15Scenario {
 		if rapid.IntRange(0, 2).Draw(t, "force_builtin") == 0 && !m.IsCTCP {
 			m.Verb = Q(rapid.SampledFrom([]string{"PING", "NICK", "433", "001", "CAP"}).Draw(t, "builtin_verb"))
 		}
+		if rapid.IntRange(0, 7).Draw(t, "empty_tag_section") == 0 {
+			// "@ :src VERB ...": a tag section with no tags in it parses to an empty, non-nil tag map
+			m.HasTags, m.Tags = true, nil
+		}
 		sc.Events = append(sc.Events, m)
 	}
 	nfg := rapid.IntRange(1, 4).Draw(t, "nfg")
